@@ -73,6 +73,7 @@ THEOREMS = [
     "AiuVerif.C14.preserved_state_invisible",
     "AiuVerif.C14.option_defaults_invisible",
     "AiuVerif.C14.option_defaults_in_place_leak",
+    "AiuVerif.C14.mutable_defaults_reviewed",   # mutable default argument values of the package == reviewed list (translator)
     "AiuVerif.C14.hidden_inventory",   # process-level mutable state of the package == reviewed list (translator)
 ]
 RULE = ("stage level: histories of 1..4 runs (exhaustive two-run histories over a small graph set + random) on the real "
